@@ -30,7 +30,7 @@ Proof.
   - unfold bind. destruct (res (m s)); cbn; [apply sublist_app|]; auto.
   - unfold signal. destruct k; cbn; apply sub_nil.
   - unfold context_call. destruct (ctx (ts s)); [|destruct (cleaning (ts s))]; cbn; apply sub_nil.
-  - unfold pop_cleanup. destruct (cleanups (ts s)) as [|[i c] r]; cbn; apply sub_nil.
+  - unfold pop_cleanup. destruct (cleanups (ts s)) as [|[i c] r]; [|destruct (cleaning (ts s))]; cbn; apply sub_nil.
   - unfold failOnError. destruct (failed (ts s)); cbn; apply sub_nil.
   - unfold drawBits. destruct (src s) as [[|x l0]|j]; cbn; try apply sub_nil; try apply sublist_refl.
     destruct (Nat.leb n 64); [destruct (jsf_rand j)|]; cbn; apply sublist_refl.
